@@ -53,7 +53,7 @@ def gen_hierarchy(rnd, tag, max_depth):
         if used and rnd.random() < 0.25:
             names.append(rnd.choice(used))             # a name another root declares, too
         names = list(dict.fromkeys(names))
-        s = D.gen_stmt(rnd, "R%s_%d" % (tag, i), [base], names, p_const=0.12)
+        s = respell(rnd, D.gen_stmt(rnd, "R%s_%d" % (tag, i), [base], names, p_const=0.12))
         steps.append(["def", s])
         classes.append((s["name"], 1))
     depth = rnd.randint(2, max_depth)
@@ -71,7 +71,7 @@ def gen_hierarchy(rnd, tag, max_depth):
             if used and rnd.random() < 0.3:
                 names.append(rnd.choice(used))         # redeclare an inherited name
             names = list(dict.fromkeys(names))
-            s = D.gen_stmt(rnd, "L%d%s_%d" % (lvl, tag, j), bases, names, p_const=0.1)
+            s = respell(rnd, D.gen_stmt(rnd, "L%d%s_%d" % (lvl, tag, j), bases, names, p_const=0.1))
             r = rnd.random()
             if r < 0.25:
                 s["required"] = sorted(set(rnd.sample(used, rnd.randint(0, min(3, len(used))))))
@@ -82,6 +82,20 @@ def gen_hierarchy(rnd, tag, max_depth):
             steps.append(["def", s])
             classes.append((s["name"], lvl))
     return steps
+
+
+def respell(rnd, s, p=0.3):
+    """Writes some declarations of statement s in another spelling of the same field (bare Field class, python type)."""
+    for m in s["members"]:
+        if m["kind"] == "decl" and m.get("kwd") is None and not m.get("imm") and rnd.random() < p:
+            sp = L.bare_spellings(m["field"], m.get("style") or "ann")
+            if (m.get("eqd") or [None])[0] == "factory":
+                # next to a plain python type typedpy calls the factory once, at definition, and keeps the VALUE as the
+                # default (_type_with_default_value_if_exists): another default object than the model's statement has
+                sp = [x for x in sp if not x[0].islower()]
+            if sp:
+                m["spell"] = rnd.choice(sp)
+    return s
 
 
 def run_steps(steps, guards):
@@ -124,8 +138,14 @@ def fault_variants(rnd, s, ctx):
                 if bad is None:
                     continue
                 m["kwd"] = None
-                m["eqd"] = ["lit", bad]
+                m["eqd"] = ["lit", bad] if rnd.random() < 0.8 else ["factory", bad]
                 m["style"] = "ann"
+                sp = L.bare_spellings(m["field"])
+                if m["eqd"][0] == "factory":
+                    sp = [x for x in sp if not x[0].islower()]
+                if sp and rnd.random() < 0.6:
+                    m["spell"] = rnd.choice(sp)
+                    m["imm"] = False
                 return True
         return False
 
